@@ -52,6 +52,7 @@ func checkC20(c *Ctx) {
 	c.checkBucketsUsed("O4 buckets-used")
 	// bucket pairs are derived from a sorted COPY that stays private while it is read (shared with C03 O5)
 	c.checkSortedCopy("O3 sorted-copy")
+	c.checkBoundTablePrivate("O6 bound-table-private")
 }
 
 // checkRecurrence (O5): the bounds follow the documented recurrence. Decided symbolically on SSA, not
@@ -1083,4 +1084,176 @@ func coversAll(idx ssa.Value, sx, sy map[ssa.Value]bool) bool {
 		}
 	}
 	return false
+}
+
+// checkBoundTablePrivate (O6): the bound table derived from a specification (bucketStorage.hbuckets)
+// is shared by reference between the bucket cache and every histogram built from that entry
+// (histogram.buckets). A histogram therefore keeps the bounds it was created with only if that table
+// is written nowhere but where it is allocated:
+//   (a) whatever is stored into bucketStorage.hbuckets is storage allocated in the same function
+//       (make / append chain on the same local struct), never a parameter's or another entry's slice;
+//   (b) outside such construction nothing appends to, stores into, copies into or sorts a slice
+//       loaded from bucketStorage.hbuckets or histogram.buckets.
+func (c *Ctx) checkBoundTablePrivate(rule string) {
+	fH := c.field("", "bucketStorage", "hbuckets")
+	fB := c.field("", "histogram", "buckets")
+	if fH == nil || fB == nil {
+		c.missing(rule, "tally.bucketStorage.hbuckets / tally.histogram.buckets")
+		return
+	}
+	nStores, nBad := 0, 0
+	for _, fn := range c.funcsOfPkg("") {
+		fn := fn
+		// local struct cells of this function
+		localBase := func(addr ssa.Value) bool {
+			fa, ok := addr.(*ssa.FieldAddr)
+			if !ok {
+				return false
+			}
+			al, isAl := fa.X.(*ssa.Alloc)
+			if !isAl || al.Parent() != fn || al.Referrers() == nil {
+				return false
+			}
+			// under construction: filled field by field, never assigned as a whole (a spilled
+			// parameter, a cache entry or a call result assigned to the variable is not)
+			for _, r := range *al.Referrers() {
+				if st, isSt := r.(*ssa.Store); isSt && st.Addr == ssa.Value(al) {
+					return false
+				}
+			}
+			return true
+		}
+		var fresh func(v ssa.Value, depth int, seen map[ssa.Value]bool) bool
+		fresh = func(v ssa.Value, depth int, seen map[ssa.Value]bool) bool {
+			if depth <= 0 {
+				return false
+			}
+			if seen[v] {
+				return true
+			}
+			seen[v] = true
+			switch x := v.(type) {
+			case *ssa.MakeSlice:
+				return true
+			case *ssa.Const:
+				return x.IsNil()
+			case *ssa.Slice:
+				if al, isAlloc := x.X.(*ssa.Alloc); isAlloc && al.Parent() == fn {
+					return true
+				}
+				return fresh(x.X, depth-1, seen)
+			case *ssa.ChangeType:
+				return fresh(x.X, depth-1, seen)
+			case *ssa.Phi:
+				for _, e := range x.Edges {
+					if !fresh(e, depth-1, seen) {
+						return false
+					}
+				}
+				return true
+			case *ssa.Call:
+				if isBuiltin(x, "append") {
+					return fresh(x.Call.Args[0], depth-1, seen)
+				}
+			case *ssa.UnOp:
+				if x.Op == token.MUL {
+					if s := spilled(x.X); s != nil {
+						return fresh(s, depth-1, seen)
+					}
+					// the same field of a struct under construction in this function: decided by
+					// the stores into it, each of which is checked by this rule
+					if f, _ := addrField(x.X); f == fH && localBase(x.X) {
+						return true
+					}
+				}
+			}
+			return false
+		}
+		derivedFromTable := func(v ssa.Value) (bool, bool) { // (from a table field, of a struct under construction here)
+			for i := 0; i < 8; i++ {
+				v = stripConv(v)
+				switch x := v.(type) {
+				case *ssa.Slice:
+					v = x.X
+					continue
+				case *ssa.UnOp:
+					if x.Op == token.MUL {
+						if f, _ := addrField(x.X); f == fH || f == fB {
+							return true, localBase(x.X)
+						}
+						if s := spilled(x.X); s != nil {
+							v = s
+							continue
+						}
+					}
+				case *ssa.Field:
+					if f := structFieldOf(x.X.Type(), x.Field); f == fH || f == fB {
+						return true, false
+					}
+				case *ssa.Call:
+					if isBuiltin(x, "append") {
+						v = x.Call.Args[0]
+						continue
+					}
+				}
+				break
+			}
+			return false, false
+		}
+		instrsOf(fn, func(in ssa.Instruction) {
+			switch x := in.(type) {
+			case *ssa.Store:
+				if f, _ := addrField(x.Addr); f == fH {
+					nStores++
+					c.sawFunc(c.fnKey(fn))
+					if !fresh(x.Val, 10, map[ssa.Value]bool{}) {
+						nBad++
+						c.bad(rule, c.fnKey(fn)+":stored", in.Pos(), "the bound table stored into a bucket storage is not allocated in this function (it comes from a parameter, a receiver or another cache entry): filling it overwrites the bounds of every histogram already built from the entry it was taken from - those histograms no longer keep the bounds they were created with", c.describe(in))
+					}
+					return
+				}
+				// element store into a table
+				if ia, ok := x.Addr.(*ssa.IndexAddr); ok {
+					if is, local := derivedFromTable(ia.X); is && !local {
+						nStores++
+						nBad++
+						c.bad(rule, c.fnKey(fn)+":element", in.Pos(), "an element of a bound table that histograms share by reference is overwritten after construction", c.describe(in))
+					}
+				} else if fa, ok := x.Addr.(*ssa.FieldAddr); ok {
+					if ia, ok := fa.X.(*ssa.IndexAddr); ok {
+						if is, local := derivedFromTable(ia.X); is && !local {
+							if st, isSt := deref(ia.Type()).Underlying().(*types.Struct); isSt {
+								name := st.Field(fa.Field).Name()
+								if strings.Contains(name, "UpperBound") || strings.Contains(name, "LowerBound") {
+									nStores++
+									nBad++
+									c.bad(rule, c.fnKey(fn)+":element", in.Pos(), "a bound inside a bound table that histograms share by reference is overwritten after construction", c.describe(in))
+								}
+							}
+						}
+					}
+				}
+			case *ssa.Call:
+				if isBuiltin(x, "append") {
+					if is, local := derivedFromTable(x.Call.Args[0]); is && !local {
+						// appending to a full-capacity table reallocates, but one re-sliced to [:0] or
+						// with spare capacity is overwritten in place: not decidable here - reject
+						nStores++
+						nBad++
+						c.bad(rule, c.fnKey(fn)+":append", in.Pos(), "append to a bound table loaded from a cache entry or a histogram: when it has spare capacity (or was re-sliced) the shared table is overwritten in place", c.describe(in))
+					}
+				} else if isBuiltin(x, "copy") {
+					if is, local := derivedFromTable(x.Call.Args[0]); is && !local {
+						nStores++
+						nBad++
+						c.bad(rule, c.fnKey(fn)+":copy", in.Pos(), "copy into a bound table that histograms share by reference", c.describe(in))
+					}
+				}
+			}
+		})
+	}
+	if nBad == 0 {
+		c.ok(rule, "tally", token.NoPos, fmt.Sprintf("all %d stores into bucketStorage.hbuckets store storage allocated in the storing function; nothing appends to, copies into or overwrites a table loaded from a cache entry or a histogram", nStores))
+	}
+	c.floor(rule, nStores, 2)
 }
